@@ -102,11 +102,15 @@ def run(tier):
             if pos == "alias_of_own_rust_name" and (rust_field_name(name) == name or not re.match(r"^[A-Za-z][A-Za-z0-9_]*$", rust_field_name(name))):
                 continue  # nothing to tell apart
             schema, doc = build(name, pos)
-            mods.append({"name": name, "class": klass, "pos": pos, "schema": schema, "doc": doc})
-    resps = generate([gen_request(m["schema"].sdl(), gql.render_doc(m["doc"]), DEFAULT_OPTS) for m in mods])
+            mods.append({"name": name, "class": klass, "pos": pos, "schema": schema, "doc": doc, "fmt": "sdl"})
+            # names that live in the schema: the same module from the introspection-JSON rendering of the schema
+            if pos in ("response_field", "id_field", "input_field", "oneof_member", "enum_value") and (klass != "keyword_variant" or tier == "thorough"):
+                mods.append({"name": name, "class": klass, "pos": pos, "schema": schema, "doc": doc, "fmt": "json"})
+    resps = generate([gen_request(m["schema"].sdl() if m["fmt"] == "sdl" else m["schema"].introspection(), gql.render_doc(m["doc"]), DEFAULT_OPTS,
+                                  ext="graphql" if m["fmt"] == "sdl" else "json") for m in mods])
     farm = Farm("c11")
     for m, r in zip(mods, resps):
-        m["label"] = {"name": m["name"], "class": m["class"], "position": m["pos"], "schema": m["schema"].sdl(), "query": gql.render_doc(m["doc"])}
+        m["label"] = {"name": m["name"], "class": m["class"], "position": m["pos"], "schema_format": m["fmt"], "schema": m["schema"].sdl(), "query": gql.render_doc(m["doc"])}
         sigs = set()
         if m["pos"] != "enum_value" and not snake_ident_ok(m["name"]):
             sigs.add("snake_case_not_an_identifier")
@@ -170,11 +174,11 @@ def run(tier):
     cov = {
         "evaluations": len(mods) + len(reqs), "distinct_nontrivial": sum(1 for m in mods if m["class"] != "control"),
         "rule": "one generated module per (name, position): %d keywords (strict, reserved and weak, editions 2015-2024), %d case "
-                "styles, %d non-keyword controls x 9 positions (response field, alias, alias of the field that is named like the alias's own Rust field, variable, input field, @oneOf member, enum value, ID-typed field, alias of an optional ID; minus combinations GraphQL itself forbids), plus every keyword in "
+                "styles, %d non-keyword controls x 9 positions (response field, alias, alias of the field that is named like the alias's own Rust field, variable, input field, @oneOf member, enum value, ID-typed field, alias of an optional ID; minus combinations GraphQL itself forbids; the positions whose name lives in the schema also with the schema rendered as introspection JSON), plus every keyword in "
                 "other case styles (Capitalised, _leading; thorough also UPPER and trailing_) at the positions that snake_case it; every module is "
                 "compiled and one value is sent through the named position; non-trivial = keyword or style names" %
                 (len(KEYWORDS), len(STYLES), len(CONTROLS)),
         "modules": len(mods), "distinct_outcomes": outcomes, "exhaustive": True,
-        "samples": pick_samples([{k: m["label"][k] for k in ("name", "position")} for m in mods], 8),
+        "samples": pick_samples([{k: m["label"][k] for k in ("name", "position", "schema_format")} for m in mods], 8),
     }
     return rep.finish(cov, ["one special name per generated module (two names mapping to one Rust identifier are outside the supported subset)"])
